@@ -43,7 +43,7 @@ const (
 	helloPattern      = `(?is)(<(\w+:)?hello.*</(\w+:)?hello>)`
 	capabilityPattern = `(?i)(?:<(?:\w+:)?capability>)(.*?)(?:</(?:\w+:)?capability>)`
 
-	messageIDPattern      = `(?i)(?:message-id="(\d+)")`
+	messageIDPattern      = `(?i)(?:message-id\s*=\s*["'](\d+)["'])`
 	subscriptionIDPattern = `(?i)<subscription-id.*>(\d+)</subscription-id>`
 
 	subscriptionResultPattern = `(?i)<subscription-result.*>notif-bis:(.+)</subscription-result>`
